@@ -20,6 +20,8 @@ func main() {
 		fwMain(os.Args[2:])
 	case "stack":
 		stackMain(os.Args[2:])
+	case "graph":
+		graphMain(os.Args[2:])
 	default:
 		fmt.Fprintln(os.Stderr, "unknown subcommand", os.Args[1])
 		os.Exit(2)
